@@ -245,6 +245,7 @@ func (n *Nodis) LRange(key string, start, stop int64) [][]byte {
 func (n *Nodis) LPopRPush(source, destination string) []byte {
 	var v [][]byte
 	_ = n.exec(func(tx *Tx) error {
+		tx.lockKeys([]string{source, destination})
 		meta := tx.writeKey(source, nil)
 		if !meta.isOk() {
 
@@ -276,6 +277,7 @@ func (n *Nodis) LPopRPush(source, destination string) []byte {
 func (n *Nodis) RPopLPush(source, destination string) []byte {
 	var v = make([][]byte, 0)
 	_ = n.exec(func(tx *Tx) error {
+		tx.lockKeys([]string{source, destination})
 		meta := tx.writeKey(source, nil)
 		if !meta.isOk() {
 			return nil
